@@ -115,8 +115,11 @@ def run(pid, tier, replay=None):
     try:
         mod = importlib.import_module(meta["module"])
         ctx = {"tier": tier, "seed": seed, "rng": random.Random(seed * 7919 + 13), "pid": pid,
-               "build": b, "model_ok": not any("does not compile" in p or "translator" in p
-                                               for p in problems)}
+               "build": b,
+               # the executable models are evaluated whenever they compile, also when a proof about them
+               # does not: the search for a concrete failing input needs them most in that situation
+               "model_ok": True,
+               "proofs_ok": not any("does not compile" in p or "translator" in p for p in problems)}
         outcome = getattr(mod, meta.get("func", "run_" + pid))(ctx)
     except Exception:
         crash = traceback.format_exc()
